@@ -8,6 +8,7 @@
     passes through `path.Join`).
 -/
 import Crs.Path
+import Crs.Cli
 import CrsProofs.Lines
 
 namespace Crs.Props
@@ -207,6 +208,68 @@ theorem clean_idempotent (p : Bytes) : clean (clean p) = clean p := by
       simp only [hroot, Bool.false_eq_true, if_false]
       rw [splitCh_joinCh '/' (c :: cs) (by simp) (normal_noSep false _ hn), cleanComps_normal false _ hn]
       simp
+
+/-- **C18/C15 (a cleaned path that begins with an ordinary character stays below where it begins).** When a cleaned path
+    does not begin with `/` or `.`, every one of its elements is ordinary: none is empty, `.` or `..`. In particular a
+    cleaned path that begins with `regex-assembly/` names a file below that directory — it cannot climb out again. -/
+theorem clean_ordinary_elements (p : Bytes) (c : Char) (hhead : (clean p).head? = some c) (h1 : c ≠ '/') (h2 : c ≠ '.') :
+    ∀ e ∈ splitCh '/' (clean p), NormalComp e := by
+  have hn := clean_normal p
+  generalize hcomps : cleanComps (isRooted p) (splitCh '/' p) = comps at hn
+  have hclean : clean p = if isRooted p then '/' :: joinCh '/' comps else if comps.isEmpty then dot else joinCh '/' comps := by
+    unfold clean; simp only [hcomps]
+  cases hr : isRooted p with
+  | true =>
+    simp only [hr, if_true] at hclean
+    rw [hclean] at hhead
+    simp only [List.head?_cons, Option.some.injEq] at hhead
+    exact absurd hhead.symm h1
+  | false =>
+    rw [hr] at hn
+    simp only [hr, Bool.false_eq_true, if_false] at hclean
+    cases comps with
+    | nil =>
+      simp only [List.isEmpty_nil, if_true] at hclean
+      rw [hclean] at hhead
+      simp only [dot, List.head?_cons, Option.some.injEq] at hhead
+      exact absurd hhead.symm h2
+    | cons x xs =>
+      simp only [List.isEmpty_cons, Bool.false_eq_true, if_false] at hclean
+      obtain ⟨k, ns, he, hns, _⟩ := hn
+      have hx := normal_head_ne false x xs ⟨k, ns, he, hns, by simp⟩
+      have hk : k = 0 := by
+        cases k with
+        | zero => rfl
+        | succ k =>
+          exfalso
+          simp only [List.replicate_succ, List.cons_append, List.cons.injEq] at he
+          rw [hclean, joinCh_head x xs hx.2, he.1] at hhead
+          simp only [dotdot, List.head?_cons, Option.some.injEq] at hhead
+          exact h2 hhead.symm
+      subst hk
+      simp only [List.replicate_zero, List.nil_append] at he
+      rw [hclean, splitCh_joinCh '/' (x :: xs) (by simp) (normal_noSep false _ ⟨0, ns, by simpa using he, hns, by simp⟩), he]
+      exact hns
+
+/-- **C15 (the file `regex format ARG` opens lies below regex-assembly).** Whatever the argument — separators, `.`, `..` —
+    when the command accepts the path it resolves to (`isFormatTarget`), every element of that path is an ordinary name:
+    the path begins with `regex-assembly/` and never leaves it again. -/
+theorem C15_format_target_below (arg : Bytes) (h : Cli.isFormatTarget (Cli.formatTarget arg) = true) :
+    ∀ e ∈ splitCh '/' (Cli.formatTarget arg), NormalComp e := by
+  unfold Cli.formatTarget at h ⊢
+  generalize Cli.formatPathOf arg = q at h ⊢
+  have hp : hasPrefix b!"regex-assembly/" (clean q) = true := by
+    simp only [Cli.isFormatTarget, Cli.inDir, Bool.and_eq_true] at h
+    exact h.1
+  cases hq : clean q with
+  | nil => rw [hq] at hp; simp [hasPrefix] at hp
+  | cons c cs =>
+    rw [hq] at hp
+    have hc : c = 'r' := by
+      simp only [hasPrefix, List.isPrefixOf, Bool.and_eq_true, beq_iff_eq] at hp
+      exact hp.1.symm
+    rw [← hq]
+    exact clean_ordinary_elements q c (by rw [hq]; rfl) (by rw [hc]; decide) (by rw [hc]; decide)
 
 /-- non-vacuity and examples: Go's documented cases -/
 example : clean b!"a//b/./c/.." = b!"a/b" ∧ clean b!"/../a" = b!"/a" ∧ clean b!"a/../../b" = b!"../b" ∧ clean [] = b!"." ∧
